@@ -4,7 +4,7 @@
     document and the auto-submit form / redirect query return these values to a parser (Codec.XmlEscape, Codec.HtmlEsc,
     Codec.QueryEscape round trips); IDs and instants are supplied by the runtime and checked by the harness. *)
 From Saml Require Import Xml.SchemaTypes Xml.Schema Gen.Schema Xml.SamlSpec.
-From Saml Require Import Idp.BuilderTypes Idp.Builder Idp.BuiltDoc Idp.GetSamlAll Idp.SuccessAny.
+From Saml Require Import Idp.BuilderTypes Idp.Builder Idp.BuiltDoc Idp.GetSamlAll Idp.SuccessAny Idp.QueryFilter Idp.AttrRefine.
 From Saml Require Import Base.Bytes Idp.FactTypes Gen.Facts Idp.Callback Idp.Deliver Core.Attrs Proofs.CallbackProofs
   Codec.QueryEscape Codec.XmlEscape Codec.HtmlEsc.
 
@@ -126,6 +126,16 @@ Theorem C03_attribute_statement_any_custom : forall reqid acs issuer audience em
                     std_attr "UserName" username ++ std_attr "UserID" userid ++ map custom_dattr cs))).
 Proof. exact success_attributes_any. Qed.
 
+(** REFINEMENT: the hand-written attribute model the handler theorems use (Core/Attrs.v, attrs_of: C03_attributes) is what the
+    programs translated from the source compute -- the attribute statement of the successful Response abstracts, field by
+    field (name, friendly name, name format, values), to attrs_of u, for every user record *)
+Theorem C03_attribute_statement_refines_model : forall reqid acs issuer audience u id1 id2 rest issue until,
+  built_sat "makeSuccessfulResponse" (Some (response_rec reqid acs issuer audience)) [user_rec u; DStr (b "f"); DNil] (id1 :: id2 :: rest) issue until
+    (fun d r => r = rest /\ exists l,
+       dget d [PField "Assertion"; PField "AttributeStatement"; PIndex 0; PField "Attribute"] = Some (DList l) /\
+       map attr_of_dval l = attrs_of u).
+Proof. exact success_refines. Qed.
+
 Print Assumptions C03_fields.
 Print Assumptions C03_attributes.
 Print Assumptions C03_wire_xml.
@@ -137,3 +147,4 @@ Print Assumptions C03_built_response.
 Print Assumptions C03_built_attributes.
 Print Assumptions C03_built_attributes_any_custom.
 Print Assumptions C03_attribute_statement_any_custom.
+Print Assumptions C03_attribute_statement_refines_model.
